@@ -506,8 +506,15 @@ func C11Drive(rec *Rec, e C11Entry) int {
 	wdDone.Wait()
 
 	// isolated reproduction of the inputs on which the watchdog fired
+	reproduced := false
 	for k, s := range suspects {
 		if s.c == nil {
+			continue
+		}
+		if reproduced {
+			// a hang of this entry point has just been reproduced and reported: another 60 s would add nothing
+			rec.Inconclusive("further input on which the watchdog fired (not re-run alone: a hang of this entry point was already reproduced)",
+				map[string]interface{}{"entry": e.Name, "case": s.idx, "input": C11Witness(s.c.In)})
 			continue
 		}
 		if k >= 2 {
@@ -531,6 +538,7 @@ func C11Drive(rec *Rec, e C11Entry) int {
 			w := C11Witness(c.In)
 			w["entry"], w["case"], w["kind"], w["seed"], w["blocked_in"] = e.Name, s.idx, c.Kind, Seed(), blocked
 			rec.Violation("hang:"+e.Name+":"+blocked, fmt.Sprintf("%s did not return within 60 s on a single input run alone (blocked in %s)", e.Name, blocked), w)
+			reproduced = true
 		}
 	}
 	return int(executed.Load())
@@ -1443,6 +1451,166 @@ func C11ParamsInput(r *rand.Rand, want string) C11Case {
 		return C11Case{In: b, Kind: k}
 	}
 	return C11Case{In: C11Random(r, 120), Kind: "random"}
+}
+
+// C11ValidWrapper is an admissible registration of a random transport with that transport's
+// parameters (what a station / registrar sees as its ordinary traffic).
+func C11ValidWrapper(r *rand.Rand) *pb.C2SWrapper { return c11ValidWrapper(r) }
+
+// ---------------------------------------------------------------------------------------------
+// DNS datagrams whose names are built from compression pointers into EVERY offset of the message.
+//
+// A compression pointer is 14 bits of attacker-chosen offset: it may target the 12 header bytes
+// (ID, flags, the four counts – all attacker-chosen too, so they may themselves read as pointers or
+// labels), RDATA of an earlier record, an earlier name, itself, or something past the end.  The
+// generator composes: a header in which some fields are pointers (to themselves, to each other in
+// cycles of length 1-3, to any header offset) or label octets; a question name of 0-2 labels that
+// ends in a pointer to a header offset / to any offset / past the end; optionally a record whose RDATA
+// holds pointer loops and a later record whose name points into that RDATA.
+func C11DNSPointerDatagram(r *rand.Rand) ([]byte, string) {
+	b := make([]byte, 12)
+	put := func(at, off int) { b[at], b[at+1] = 0xc0|byte(off>>8)&0x3f, byte(off) }
+	structural := [6]bool{}
+	shape := ""
+	// ---- header
+	b[0], b[1] = byte(r.Intn(256)), byte(r.Intn(256))
+	b[2], b[3] = []byte{0x01, 0x00, 0x81, 0x84}[r.Intn(4)], []byte{0x00, 0x80, 0x20}[r.Intn(3)]
+	var cyc []int // header offsets that are part of a deliberately built structure
+	switch x := r.Intn(10); {
+	case x < 4: // a pointer cycle of length 1-3 through distinct header fields
+		l := 1 + r.Intn(3)
+		f := r.Perm(6)[:l]
+		for i := range f {
+			put(2*f[i], 2*f[(i+1)%l])
+			structural[f[i]] = true
+			cyc = append(cyc, 2*f[i])
+		}
+		shape = "hdr-cycle" + strconv.Itoa(l)
+	case x < 6: // a label run inside the header that ends in a pointer back to where it started
+		start := r.Intn(8) // label octet at start, n bytes of label, then the pointer
+		n := r.Intn(3)
+		if start+1+n+2 > 12 {
+			n = 0
+		}
+		b[start] = byte(n)
+		if n == 0 {
+			b[start] = 1
+			n = 1
+		}
+		if start+1+n+2 <= 12 {
+			put(start+1+n, start)
+		}
+		for o := start; o < start+1+n+2 && o < 12; o++ {
+			structural[o/2] = true
+		}
+		cyc = append(cyc, start)
+		shape = "hdr-label-loop"
+	case x < 9: // every field independently
+		for i := 0; i < 6; i++ {
+			switch y := r.Intn(10); {
+			case y < 3:
+				put(2*i, r.Intn(12))
+			case y < 4:
+				put(2*i, 2*i)
+			case y < 5:
+				put(2*i, 2*i+1) // into its own second octet
+			case y < 6:
+				b[2*i], b[2*i+1] = byte(r.Intn(4)), byte(r.Intn(256))
+			default:
+				continue
+			}
+			structural[i] = true
+			cyc = append(cyc, 2*i)
+		}
+		shape = "hdr-free"
+	default:
+		shape = "hdr-plain"
+	}
+	nq := 1 + r.Intn(8)/7
+	if !structural[2] {
+		b[4], b[5] = 0, byte(nq)
+	}
+	target := func() (int, string) {
+		switch x := r.Intn(8); {
+		case x < 3 && len(cyc) > 0:
+			return cyc[r.Intn(len(cyc))], "->hdr-struct"
+		case x < 5:
+			return r.Intn(12), "->hdr"
+		case x < 7:
+			return r.Intn(len(b) + 2), "->any"
+		}
+		return len(b) + r.Intn(40), "->beyond"
+	}
+	name := func() string {
+		for i, n := 0, r.Intn(3); i < n; i++ {
+			l := 1 + r.Intn(3)
+			b = append(b, byte(l))
+			for k := 0; k < l; k++ {
+				b = append(b, "abcxyz01"[r.Intn(8)])
+			}
+		}
+		if r.Intn(10) == 0 {
+			b = append(b, 0)
+			return "->end"
+		}
+		t, d := target()
+		b = append(b, 0xc0|byte(t>>8)&0x3f, byte(t))
+		return d
+	}
+	// ---- question(s)
+	qd := ""
+	for i := 0; i < nq; i++ {
+		qd = name()
+		b = append(b, 0, 16, 0, 1)
+	}
+	shape += ":q" + qd
+	// ---- records: RDATA holding pointer structures, later names pointing into it
+	if r.Intn(3) == 0 {
+		nrr := 1 + r.Intn(2)
+		sect := 3 + r.Intn(3) // ANCOUNT / NSCOUNT / ARCOUNT
+		if !structural[sect] {
+			b[2*sect], b[2*sect+1] = 0, byte(nrr)
+		}
+		var rd []int
+		d := ""
+		for i := 0; i < nrr; i++ {
+			if len(rd) > 0 && r.Intn(4) != 0 {
+				t := rd[r.Intn(len(rd))]
+				b = append(b, 0xc0|byte(t>>8)&0x3f, byte(t))
+				d = "->rdata"
+			} else {
+				d = name()
+			}
+			b = append(b, 0, 16, 0, 1, 0, 0, 0, 60)
+			at := len(b) + 2
+			var data []byte
+			switch r.Intn(5) {
+			case 0: // self loop
+				data = []byte{0xc0 | byte(at>>8), byte(at)}
+				rd = append(rd, at)
+			case 1: // two-cycle
+				data = []byte{0xc0 | byte((at+2)>>8), byte(at + 2), 0xc0 | byte(at>>8), byte(at)}
+				rd = append(rd, at, at+2)
+			case 2: // label, then back to the label
+				data = []byte{1, 'a', 0xc0 | byte(at>>8), byte(at)}
+				rd = append(rd, at, at+2)
+			case 3: // into the header
+				t := r.Intn(12)
+				data = []byte{0xc0, byte(t)}
+				rd = append(rd, at)
+			default:
+				data = make([]byte, r.Intn(6))
+				r.Read(data)
+				for k := range data {
+					rd = append(rd, at+k)
+				}
+			}
+			b = append(b, byte(len(data)>>8), byte(len(data)))
+			b = append(b, data...)
+		}
+		shape += ":rr" + d
+	}
+	return b, "pointers-anywhere:" + shape
 }
 
 // ---------------------------------------------------------------------------------------------
